@@ -42,7 +42,7 @@ type c13StressViol struct {
 }
 
 func TestVerif_C13_stress(t *testing.T) {
-	rec := vh.NewRec("C13", "stress", "uncontrolled goroutines under the race detector: W request loops (dual/v4/v6 in rotation, fresh secret per request) against one loop of R sequential reloads (3 of 5 valid files with subnets disjoint from all others, 1 unreadable path, 1 invalid file), each reload followed by a probe request; every response must come from one set that was installed (or being installed) during the request; watchdog on stalls; non-trivial = a request during which a reload started, ran or ended; distinct by (worker, sequence number)")
+	rec := vh.NewRec("C13", "stress", "uncontrolled goroutines under the race detector: W request loops (dual/dualx/dualalt/v4/v6/badgen/v6x in rotation - four of the seven kinds are refused under some or all sets and must return their error -, fresh secret per request) against one loop of R sequential reloads (3 of 5 valid files with subnets disjoint from all others, 1 unreadable path, 1 invalid file), each reload followed by a probe request; every answer must come from one set that was installed (or being installed) during the request; watchdog on stalls; non-trivial = a request during which a reload started, ran or ended; distinct by (worker, sequence number)")
 	defer rec.Flush()
 	e := c13NewEnv(t)
 	shard, _ := vh.Shard()
@@ -50,7 +50,7 @@ func TestVerif_C13_stress(t *testing.T) {
 	if vh.ReplayFile() != "" {
 		c.Note = "stress runs are not replayable step by step; the scenario is simply run again"
 	} else {
-		rec.Require("overlapped-a-reload", "reload-ok", "reload-failed", "dual", "v4", "v6", "overlapped-answered-from-new-set", "overlapped-answered-from-old-set")
+		rec.Require("overlapped-a-reload", "reload-ok", "reload-failed", "dual", "v4", "v6", "badgen", "v6x", "dualx", "dualalt", "refused", "overlapped-refused", "overlapped-answered-from-new-set", "overlapped-answered-from-old-set")
 	}
 
 	// plan of reloads, fixed in advance: setAfter[i] = set installed after the first i reloads
@@ -118,7 +118,7 @@ func TestVerif_C13_stress(t *testing.T) {
 			defer wg.Done()
 			register(fmt.Sprintf("worker%d", w))
 			for seq := 0; !stop.Load(); seq++ {
-				kind := c13ReqKinds[(w+seq)%3]
+				kind := c13AllReqKinds[(w+seq)%len(c13AllReqKinds)]
 				f0 := finished.Load()
 				resp, err, pan := call(c13Secret("stress", w, seq), kind)
 				s1 := started.Load()
@@ -127,10 +127,22 @@ func TestVerif_C13_stress(t *testing.T) {
 					report("request-panic", fmt.Sprintf("worker %d request %d [%s] panicked: %s", w, seq, kind, pan))
 					return
 				}
-				set, k, m := e.c13Judge(kind, resp, err)
+				var window []int
+				for j := f0; j <= s1; j++ {
+					window = append(window, setAfter[j])
+				}
+				set, refused, k, m := e.c13Judge(kind, resp, err, window)
 				if k != "" {
 					report(k, fmt.Sprintf("worker %d request %d [%s] (reloads finished before it started: %d, started before it ended: %d): %s", w, seq, kind, f0, s1, m))
 					return
+				}
+				if refused {
+					cl := []string{kind, "refused"}
+					if s1 > f0 {
+						cl = append(cl, "overlapped-a-reload", "overlapped-refused")
+					}
+					rec.Case(s1 > f0, vh.Digest(fmt.Sprintf("%d/%d", w, seq)), c13StressSample{w, seq, kind, s1 > f0, -1}, cl...)
+					continue
 				}
 				ok := false
 				for j := f0; j <= s1; j++ {
@@ -206,7 +218,7 @@ func TestVerif_C13_stress(t *testing.T) {
 				report("request-panic", fmt.Sprintf("request after reload %d [%s] panicked: %s", i, st.kind, ppan))
 				return
 			}
-			set, k, m := e.c13Judge("dual", resp, err)
+			set, _, k, m := e.c13Judge("dual", resp, err, nil)
 			if k != "" {
 				report(k, fmt.Sprintf("request after reload %d [%s]: %s", i, st.kind, m))
 				return
